@@ -58,6 +58,8 @@ def pcanon_cfg(v):
             return ['obj', 'LabObj', d]
         if name == 'LabObjSet':
             return ['obj', 'LabObjSet', {'tags': sorted(kw['tags'])}]
+        if name == 'LabChainObj':
+            return ['obj', 'LabChainObj', {'a': pcanon_cfg(kw['a']), 'inited': True}]
         return ['obj', name, {'x': pcanon_cfg(kw['x'])}]
     if isinstance(v, tuple) and v and v[0] == 'path':
         return ['p', v[1]] if v[1] is not None else ['N']
@@ -82,6 +84,8 @@ def received_cfg(v, gv):
                                       'verbose': received_cfg(kw.get('verbose', False), gv)}]
         if name == 'LabObjSet':
             return ['obj', 'LabObjSet', {'tags': sorted(kw['tags'])}]
+        if name == 'LabChainObj':
+            return ['obj', 'LabChainObj', {'a': received_cfg(kw['a'], gv), 'inited': True}]
         return ['obj', name, {'x': received_cfg(kw['x'], gv)}]
     if isinstance(v, tuple) and v and v[0] == 'path':
         return ['p', subst_text(v[1], gv)] if v[1] is not None else ['N']
